@@ -6,6 +6,8 @@ CONSTANTS
   MaxKe = 1
   MaxCases = 1
   ScDev = 1
+  MaxHist = 2
+  Bursts = {"vn", "vk", "mix"}
   Wide = FALSE
   ExtLenZeroLoops = TRUE
   NonceLenUnchecked = TRUE
